@@ -14,7 +14,7 @@ MANIFEST = {
             'formula, text with quotes/apostrophes, empty text, logicals, every error value, blanks) and sheet names drawn from a quoting alphabet are built from real .xlsx files '
             'and from dictionaries, exported with to_dict, serialised to JSON, re-imported with from_dict and re-exported three times: every cell of the re-imported model must equal '
             'the original model and the reference evaluator, and the JSON text must be identical from the first export on. Every C01 expression tree with <= 3 operators is '
-            'exported, re-parsed and re-exported: text and value must be stable.' ' Later additions: raw workbooks (long literals, sheet-less and sheet-only keys, unbreakable and guarded cycles after finish(circular=True), chained names on the file and dictionary paths, an undefined name), nested reference operators among the re-parsed texts.',
+            'exported, re-parsed and re-exported: text and value must be stable.' ' Later additions: raw workbooks (long literals, sheet-less and sheet-only keys, unbreakable and guarded cycles after finish(circular=True), chained names on the file and dictionary paths, an undefined name), nested reference operators among the re-parsed texts. A raw workbook whose calls take a parenthesised union or expression as their only argument, as one of several and nested (IRR, SUM, LARGE, SMALL, COUNT, ABS, ROUND).',
     'note': 'Trusted: ref/wbeval.py for values. Text-that-looks-like-a-formula can only enter through string cells of a file (the dictionary format defines "=..." as a formula).',
 }
 RULE = 'case = (workbook, sheet renaming, constant kinds, path) or one formula tree; non-trivial = exported and re-imported; distinct = case key'
@@ -249,6 +249,12 @@ RAW = {
                              "'[b.xlsx]S'!C1": "=COUNT('[b.xlsx]'!ALIAS:'[b.xlsx]S'!B3)", "'[b.xlsx]S'!C2": "=SUM('[b.xlsx]'!ALIAS:'[b.xlsx]'!LAST)",
                              "'[b.xlsx]S'!C3": "=SUM('[b.xlsx]'!FIRST:'[b.xlsx]'!LAST)", "'[b.xlsx]S'!C4": "=SUM('[b.xlsx]S'!A2:'[b.xlsx]'!ALIAS2)",
                              "'[b.xlsx]S'!C5": "=SUM('[b.xlsx]'!BLOCK)+'[b.xlsx]'!ALIAS2"}),
+    # a parenthesised union (or expression) as the only argument, as one of several arguments and nested: the brackets are part of the meaning
+    'union-arguments': {"'[b.xlsx]S'!A1": -100, "'[b.xlsx]S'!B1": 30, "'[b.xlsx]S'!B2": 50, "'[b.xlsx]S'!B3": 60,
+                        "'[b.xlsx]S'!C1": "=IRR(('[b.xlsx]S'!A1,'[b.xlsx]S'!B1:B3))", "'[b.xlsx]S'!C2": "=ABS(('[b.xlsx]S'!A1+'[b.xlsx]S'!B1))",
+                        "'[b.xlsx]S'!C3": "=SUM(('[b.xlsx]S'!A1,'[b.xlsx]S'!B1:B3))", "'[b.xlsx]S'!C4": "=LARGE(('[b.xlsx]S'!A1,'[b.xlsx]S'!B1:B3),2)",
+                        "'[b.xlsx]S'!C5": "=SMALL(('[b.xlsx]S'!B1:B3,'[b.xlsx]S'!A1),1)+COUNT(('[b.xlsx]S'!A1,'[b.xlsx]S'!B1:B2),'[b.xlsx]S'!B3)",
+                        "'[b.xlsx]S'!C6": "=IRR(('[b.xlsx]S'!A1,'[b.xlsx]S'!B1:B3),0.1)", "'[b.xlsx]S'!C7": "=ROUND((('[b.xlsx]S'!B1+'[b.xlsx]S'!B2)),(1))"},
     'hex-and-arrays': {"'[b.xlsx]S'!A1": 255, "'[b.xlsx]S'!B1": "=DEC2HEX('[b.xlsx]S'!A1)", "'[b.xlsx]S'!C1:D2": "={1,2;3,4}*'[b.xlsx]S'!A1", "'[b.xlsx]S'!E1": "=SUM('[b.xlsx]S'!C1:D2)"},
 }
 
